@@ -25,6 +25,10 @@ edits = {
  "src/internal/sync/hashtriemap.go": [
   ("ht.seed = uintptr(runtime_rand())", "ht.seed = uintptr(0x1234567) // verif"),
  ],
+ "src/runtime/time.go": [
+  ("t.rand = cheaprand()", "verifTimerSeq++; t.rand = verifTimerSeq * 2654435761 // verif: deterministic tie order of fake timers"),
+  ("type timeTimer struct {", "var verifTimerSeq uint32\n\ntype timeTimer struct {"),
+ ],
  "src/runtime/proc.go": [
   ("const forcePreemptNS = 10 * 1000 * 1000 // 10ms", "const forcePreemptNS = 3600 * 1000 * 1000 * 1000 // verif: 1h"),
  ],
